@@ -441,8 +441,8 @@ theorem poll_sound (rc : RunCfg) {ls : LoopState} {ss : SState} (h : LRel c ls s
     (poll rc ls).1 = (specPoll rc ss).1 ∧ LRel c (poll rc ls).2 (specPoll rc ss).2 := by
   unfold poll specPoll
   have hc : ls.es.cancelled = ss.vis.cancelled := by rw [← h.vis]; rfl
-  simp only [hc, h.polls]
-  exact ⟨rfl, ⟨h.vis, rfl, h.passes, h.trace, h.coh⟩⟩
+  simp only [hc, h.polls, h.trace]
+  exact ⟨rfl, ⟨h.vis, rfl, h.passes, rfl, h.coh⟩⟩
 
 theorem isRetracted_vis (es : EState) (e : RuleEntry) : isRetracted es e = visRetracted es.vis e := rfl
 
